@@ -845,3 +845,12 @@ VARIANTS['C10'] += [
     V('mehd deleted by a path that does not exist (fix 60282d5 reverted)',
       [(MRQ, "                del atom.moov.mvex.mehd\n", "                del atom.moov.mehd\n")], 'R10.6', 'generate_init_segment'),
 ]
+
+VARIANTS['C03'] += [
+    V('sidx removal no longer marks the moof as moved (fix 493dccc reverted)',
+      [(MRQ, "            del atom.sidx\n            # a sidx box in front of the moof box means that the moof\n            # box has now moved\n            moof_modified = True\n",
+        "            del atom.sidx\n")], 'R03.5', 'generate_media_segment'),
+    V('neutral: sidx removal marks the moof through a local',
+      [(MRQ, "            del atom.sidx\n            # a sidx box in front of the moof box means that the moof\n            # box has now moved\n            moof_modified = True\n",
+        "            del atom.sidx\n            sidx_removed = True\n            moof_modified = sidx_removed\n")], None),
+]
